@@ -180,7 +180,12 @@ impl<Q: CustomQuery + DeserializeOwned> Cx<Q> {
                 time: Timestamp::from_nanos(1_571_797_419_879_305_533),
                 chain_id: "verif-1".to_string(),
             },
-            transaction: Some(TransactionInfo { index: 3 }),
+            // "tx": absent = index 3, null = no transaction info, n = index n
+            transaction: match ctx.get("tx") {
+                None => Some(TransactionInfo { index: 3 }),
+                Some(Value::Null) => None,
+                Some(v) => Some(TransactionInfo { index: v.as_u64().unwrap_or(3) as u32 }),
+            },
             contract: ContractInfo { address: Addr::unchecked(contract) },
         };
         let info = MessageInfo {
@@ -298,12 +303,13 @@ fn record<Q: CustomQuery>(
         None => (Value::Null, Value::Null),
     };
     format!(
-        "{{\"h\":{},\"args\":{},\"sender\":{},\"funds\":{},\"height\":{},\"contract\":{},\"seen\":{},\"api_ok\":{},\"bal\":{}}}",
+        "{{\"h\":{},\"args\":{},\"sender\":{},\"funds\":{},\"height\":{},\"tx\":{},\"contract\":{},\"seen\":{},\"api_ok\":{},\"bal\":{}}}",
         serde_json::to_string(h).unwrap(),
         a,
         sender,
         funds,
         env.block.height,
+        serde_json::to_string(&env.transaction.as_ref().map(|t| t.index)).unwrap(),
         serde_json::to_string(env.contract.address.as_str()).unwrap(),
         serde_json::to_string(&seen).unwrap(),
         api_ok,
